@@ -167,8 +167,10 @@ def run_case(rng, tier, idx):
     c.expect('fint independent of the memory layout of the state vector',
              np.array_equal(np.asarray(cc.calc_fint(crep, inc=inc, return_u=True, silent=True), dtype=float), fint(cu)), rk)
     c.expect('kT independent of the memory layout of the state vector', np.array_equal(cc.calc_kT(crep, inc=inc, silent=True).toarray(), KT), rk)
-    scK = np.abs(KT) + 1e-9 * np.abs(KT).max() + 1e-300
-    c.judge('kT symmetric', float((np.abs(KT - KT.T) / scK).max()), 1e-12)
+    # entry-wise scale: the tangent is the sum k0 + state-dependent parts, an entry where they nearly cancel carries the round-off of
+    # the summands (thorough-tier calibration: 5.9e-12 of |kT_ij| alone on a plain cylinder, 34 x 24 Simpson grid)
+    scK = np.abs(KT) + np.abs(k0uu) + 1e-9 * np.abs(KT).max() + 1e-300
+    c.judge('kT symmetric', float((np.abs(KT - KT.T) / scK).max()), 1e-11)
     # linear coefficient at the undeformed state
     if not prescribed and not imperfect and not asym and not zero_state:
         D0, S0 = stencil(fint, np.zeros(n), cu)
